@@ -67,6 +67,17 @@ func (fx *FnCtx) stringConst(s string, t types.Type) Value {
 		fx.root.heapAxiomDone[id] = true
 		// string constants sit below the entry allocation counter and are distinct from 0
 		fx.root.axioms = append(fx.root.axioms, tc.IdxLt(tc.IdxNum(0), id), tc.IdxLt(id, fx.root.entryNAlloc))
+		// the content key of the constant, also when it is reached through a merged value
+		// (if-then-else of a variable string and the constant): strkey(id, 0, len) is its numeral
+		{
+			k, ok := fx.V.strConsts[id.Name]
+			if !ok {
+				k = len(fx.V.strConsts) + 1
+				fx.V.strConsts[id.Name] = k
+			}
+			f := DeclareUF("strkey_"+tc.Mode.String(), []*Sort{tc.IdxSort(), tc.IdxSort(), tc.IdxSort()}, tc.IdxSort())
+			fx.root.axioms = append(fx.root.axioms, Eq(f.App(id, tc.IdxNum(0), tc.IdxNum(int64(len(s)))), tc.IdxNum(int64(k))))
+		}
 		lf := tc.Layout(types.Typ[types.Uint8]).Leaves[0]
 		h := fx.initialHeap(arrHeapName(types.Typ[types.Uint8], lf), tc.heapSort("A", lf), lf)
 		if len(s) <= 64 {
